@@ -89,6 +89,10 @@ func c04MustInShape(s h.C04Shape, l []uint64, what string) {
 	}
 }
 
+// c04Foreign is the result for a replayed case that was generated for the
+// other limb backend (replay files are offered to every configuration).
+func c04Foreign() h.Result { return h.NewR().Class("other-backend").Result() }
+
 func c04GenK(t *rapid.T) uint {
 	switch rapid.IntRange(0, 9).Draw(t, "kk") {
 	case 0, 1, 2, 3:
@@ -117,6 +121,7 @@ var c04Big121666 = big.NewInt(121666)
 // ------------------------------------------------ (i) raw limbs: cheap ops
 
 type c04RawCase struct {
+	BE     string // limb backend the case was generated for ("u64"/"u32")
 	A, B   []uint64
 	ACls   string
 	BCls   string
@@ -127,13 +132,25 @@ type c04RawCase struct {
 func c04GenRaw(t *rapid.T) c04RawCase {
 	a, ac := h.C04GenLimbs(t, "a", c04Shape)
 	b, bc := h.C04GenLimbs(t, "b", c04Shape)
-	if rapid.IntRange(0, 7).Draw(t, "same") == 0 {
+	switch rapid.IntRange(0, 11).Draw(t, "rel") {
+	case 0:
 		b, bc = append([]uint64(nil), a...), ac
+	case 1: // a different representation of the same value
+		b, bc = h.C04Repr(t, "same", c04Shape, c04Shape.Value(a)), "same-value"
+	case 2: // values one bit / one small step apart (Equal must see every byte)
+		d := new(big.Int).Lsh(big.NewInt(1), uint(rapid.IntRange(0, 254).Draw(t, "bit")))
+		if rapid.Bool().Draw(t, "minus") {
+			d.Neg(d)
+		}
+		b, bc = h.C04Repr(t, "near", c04Shape, d.Add(d, c04Shape.Value(a))), "a+-2^k"
 	}
-	return c04RawCase{A: a, B: b, ACls: ac, BCls: bc, K: c04GenK(t), Choice: rapid.IntRange(0, 1).Draw(t, "choice")}
+	return c04RawCase{BE: c04Backend, A: a, B: b, ACls: ac, BCls: bc, K: c04GenK(t), Choice: rapid.IntRange(0, 1).Draw(t, "choice")}
 }
 
 func c04CheckRaw(c c04RawCase) h.Result {
+	if c.BE != c04Backend {
+		return c04Foreign()
+	}
 	r := h.NewR().Class("a:"+c.ACls, "b:"+c.BCls)
 	c04MustInShape(c04Shape, c.A, "A")
 	c04MustInShape(c04Shape, c.B, "B")
@@ -291,16 +308,20 @@ func TestC04Raw(t *testing.T) {
 // ------------------------------- ToBytes & friends over the whole machine word
 
 type c04FullCase struct {
+	BE  string
 	A   []uint64
 	Cls string
 }
 
 func c04GenFull(t *rapid.T) c04FullCase {
 	a, cls := h.C04GenLimbs(t, "a", c04FullShape)
-	return c04FullCase{A: a, Cls: cls}
+	return c04FullCase{BE: c04Backend, A: a, Cls: cls}
 }
 
 func c04CheckFull(c c04FullCase) h.Result {
+	if c.BE != c04Backend {
+		return c04Foreign()
+	}
 	r := h.NewR().Class(c.Cls)
 	c04MustInShape(c04FullShape, c.A, "A")
 	raw := c04Shape.Value(c.A)
@@ -328,13 +349,14 @@ func TestC04Encode(t *testing.T) { h.Run(t, c04GenFull, c04CheckFull) }
 // --------------------------- (i) inversion, batch inversion, square-root ratio
 
 type c04SqrtCase struct {
+	BE    string
 	U, V  []uint64
 	Cls   string
 	Batch [][]uint64
 }
 
 func c04GenSqrt(t *rapid.T) c04SqrtCase {
-	var c c04SqrtCase
+	c := c04SqrtCase{BE: c04Backend}
 	kind := rapid.IntRange(0, 9).Draw(t, "kind")
 	switch kind {
 	case 0, 1, 2:
@@ -391,6 +413,9 @@ func c04GenSqrt(t *rapid.T) c04SqrtCase {
 }
 
 func c04CheckSqrt(c c04SqrtCase) h.Result {
+	if c.BE != c04Backend {
+		return c04Foreign()
+	}
 	r := h.NewR().Class(c.Cls)
 	c04MustInShape(c04Shape, c.U, "U")
 	c04MustInShape(c04Shape, c.V, "V")
@@ -526,6 +551,7 @@ type c04Op struct {
 }
 
 type c04ProgCase struct {
+	BE   string
 	Init [][]uint64
 	Ops  []c04Op
 }
@@ -539,7 +565,7 @@ var c04OpNames = []string{
 }
 
 func c04GenProg(t *rapid.T) c04ProgCase {
-	var c c04ProgCase
+	c := c04ProgCase{BE: c04Backend}
 	nreg := rapid.IntRange(2, 5).Draw(t, "nreg")
 	for i := 0; i < nreg; i++ {
 		l, _ := h.C04GenLimbs(t, "init", c04Shape)
@@ -582,6 +608,9 @@ func c04GenProg(t *rapid.T) c04ProgCase {
 }
 
 func c04CheckProg(c c04ProgCase) h.Result {
+	if c.BE != c04Backend {
+		return c04Foreign()
+	}
 	r := h.NewR()
 	n := len(c.Init)
 	if n < 1 || n > 8 {
